@@ -13,7 +13,7 @@ CLAIMED = {
  'C16': dict(cat='model_checking', ref='6/C16', text='Store.tla is an executable reference of the 27 commands; TLC generates batches (1..3 transactions x 1..3 commands, guarded writes aimed at current rows half of the time, naturally failing bulk inserts) which are executed by the real SQLite worker; every reported result (evaluated on the state just before its command) and the five tables read back through a second connection are judged by TLC.', tech=SIDE, engine='tlc+storex'),
  'C17': dict(cat='model_checking', ref='6/C17', text='The same TLC-generated workloads are executed by the real Postgres worker code (statement text, placeholders, argument and scan order, row-count plumbing, transaction handling) over a dialect-translating driver on the SQLite engine, and by the SQLite worker; both are judged by TLC against Store.tla, hence against each other.', tech=SIDE, engine='tlc+storex+pgemu'),
  'C18': dict(cat='model_checking', ref='6/C18', text='Poll.tla (registry, buffers, connection limit, usurpation, id preference, notify rule, double-close = crash) checked exhaustively; TLC-generated event sequences are replayed on the real connections registry and PollWorker.Process, directly and through the real PollWorker.Start loop (control events queued while the worker is busy exercise the prioritised select); registry, buffer lengths, Done results and panics judged by TLC.', tech=SIDE, engine='tlc+pollx'),
- 'C19': dict(cat='model_checking', ref='6/C19', text='Route.tla: routing-tag classes x target tables x stored receivers x task kinds (149 vectors) enumerated by TLC and played on the real router worker and the real sender worker with recording plugins; matched/receiver, plugin, data, message type, body and links judged by TLC.  Push.tla (the http transport: queue, worker, reports; model-checked) with 196 TLC-generated scenarios played by pushx on the real sender worker and http plugin against loopback receivers, the record judged by PushTrace.tla.', tech=SIDE, engine='tlc+routex+pushx'),
+ 'C19': dict(cat='model_checking', ref='6/C19', text='Route.tla: routing-tag classes x target tables x stored receivers x task kinds (263 vectors) enumerated by TLC and played on the real router worker and the real sender worker with recording plugins; matched/receiver, plugin, data, message type, body and links judged by TLC.  Push.tla (the http transport: queue, worker, reports; model-checked) with 230 (thorough: 2130) TLC-generated scenarios played by pushx on the real sender worker and http plugin against loopback receivers, the record judged by PushTrace.tla.', tech=SIDE, engine='tlc+routex+pushx'),
  'C13': dict(cat='fault_enumeration', ref='6/C13', text='Front.tla structures the input space as endpoint x field x class of hostile value followed by the lifecycle an accepted entity goes through (time-out, routing, dispatch, firing, conversion), a kill -9, a restart and more background cycles; TLC enumerates the ~600 scenarios; each is played against its own real `resonate serve` process over real HTTP/gRPC by procx; TLC judges survival, liveness probes, reply classes and that refused requests leave no trace in the database file.', tech='TLA+ scenario table (Front.tla) enumerated by TLC, played on the real server binary (procx), observations judged by TLC (FrontTrace.tla)', engine='tlc+procx'),
  'C14': dict(cat='model_checking', ref='6/C14', text='Search definitions (pattern, state mask, tags, newest first, page size, cursor iff full) checked exhaustively by TLC: following cursors returns exactly the matching set once each; real searches go through the real API helper and real JWT cursors, each page must be the level-A result on a commit-point state, traversals are checked for duplicates/completeness under concurrent mutations, forged cursors must be rejected.', tech=TRACEB),
  'C01': dict(cat='model_checking', ref='6/C01', text='Write-once/immutability as TLA+ action properties: exhaustive on the bounded level-A model; every recorded commit (incl. each transaction inside a batch), reply and notification of seeded racing workloads with faults and crashes is checked by TLC against them.', tech=TRACEB),
@@ -25,7 +25,7 @@ CLAIMED = {
  'C07': dict(cat='model_checking', ref='6/C07', text='Claim guard, one claim per counter, lease honoured, fencing: exhaustive in the level-A task model (2 workers, stale/future counters, ttl 0); real claim/complete/heartbeat/sweep/dispatch interleavings validated by TLC with the lease bookkeeping of the spec.', tech=TRACEB),
  'C08': dict(cat='model_checking', ref='6/C08', text='Birth/finish of tasks with their promise and the dispatch discipline (selection, one per root per cycle, enqueued only after success, message names task+counter) checked by TLC on the model and on recorded executions with the real router and the real sender worker (recording plugin).', tech=TRACEB),
  'C09': dict(cat='model_checking', ref='6/C09', text='Lock exclusivity and lease arithmetic: exhaustive for 2 executions x 2 processes x ttl {0,1,2} x every clock position; real acquire/release/heartbeat/sweep interleavings validated by TLC.', tech=TRACEB),
- 'C10': dict(cat='model_checking', ref='6/C10', text='Schedule firing (advance by exactly one occurrence, never early, atomic with the promise, idempotent create) exhaustive in the model; real cron strings, clock jumps, delete/re-create races, faults and crashes validated by TLC.', tech=TRACEB),
+ 'C10': dict(cat='model_checking', ref='6/C10', text='Schedule firing (advance by exactly one occurrence, never early, atomic with the promise, idempotent create) exhaustive in the model; real cron strings, clock jumps, delete/re-create races, faults and crashes validated by TLC, incl. what a firing cycle selects (the most overdue first) and that no occurrence is left behind when the run ends (convergence workload with unrenderable id templates).', tech=TRACEB),
  'C11': dict(cat='model_checking', ref='6/C11', text='Liveness <>[]Converged under weak fairness of the background effects checked by TLC on level A; on the real kernel: after clients stop, configurations drawn down to 1, the bounded number of cycles is run and TLC evaluates Converged on the logged database.  Tick.tla (admission of background coroutines and requests per tick; model-checked) with every tick of every run judged by TickTrace.tla; the production queues by queuex.', tech=TRACEB),
 }
 NOTE = {
